@@ -359,3 +359,24 @@ Proof.
   apply andb_true_iff in H. destruct H as [H1 H2]. apply list_eqb_N_eq in H1. subst sets.
   apply N.eqb_eq in H2. subst hdr2. unfold c18_oracle. cbn [rev app]. rewrite N.eqb_refl, N.leb_refl. reflexivity.
 Qed.
+
+(* taking over: the leader flag implies that the lock version is installed; before that the node refuses /status,
+   so a follower reading through it fails *)
+Lemma leader_flag_implies_revision : forall p old version, tk_flag p = true -> (version <= tk_revision p old version)%N.
+Proof. intros [] old version H; try discriminate H. cbn. lia. Qed.
+
+Lemma takeover_peer_read : forall p old version,
+  match f_backend (tk_peer_read p old version) with
+  | BRead => f_set (tk_peer_read p old version) = Some (tk_revision p old version) /\ (version <= tk_revision p old version)%N
+  | _ => f_resp (tk_peer_read p old version) = RespError
+  end.
+Proof. intros [] old version; cbn; try reflexivity. split; [reflexivity|lia]. Qed.
+
+Lemma c18_takeover_sound : forall old version ms ml fr pc,
+  c18_check (TakeoverCase old version ms ml fr pc) = true -> c18_oracle (TakeoverCase old version ms ml fr pc) = None.
+Proof.
+  intros old version ms ml fr pc H. unfold c18_check in H. cbn in H.
+  repeat (apply andb_true_iff in H; destruct H as [H ?]).
+  destruct ms; [discriminate|]. destruct ml; [discriminate|]. apply N.eqb_eq in H1. subst fr. subst pc.
+  unfold c18_oracle. rewrite N.leb_refl. reflexivity.
+Qed.
